@@ -25,7 +25,15 @@ def run(tier, argv):
     rep.cov["rule"] = ("%d scalar schemas (rule-set families: min/max/exclusive*, precision, lengths, regex, enum, const, five formats, nullable, "
                        "false-valued rules) x %d probe values on/inside/outside every boundary; verdict vectors by Sem!ScalarVerdict "
                        "(three-valued, %d unspecified cells skipped)" % (nc, nd, s["unspecified"]))
-    bad += semcommon.random_tier(work, rep, hbin, False, (300 if quick else 10000))
+    # formats in depth: calendar / clock / zone grid and uuid position sweeps
+    docs2, cases2, nd2, nc2 = semcommon.generate(work, rep, "GenFormats", "GenFormats.cfg", {"Level": "1" if quick else "2"}, "formats")
+    s2, bad2 = semcommon.replay(work, hbin, docs2, cases2, "formats")
+    rep.notes["formats"] = s2
+    bad += bad2
+    rep.cov["evaluations"] += s2["evaluations"]
+    rep.cov["distinct_nontrivial"] += s2["evaluations"]
+    rep.cov["traces_validated_against_impl"] += s2["evaluations"]
+    bad += semcommon.random_tier(work, rep, hbin, False, (300 if quick else 60000))
     for b in bad[:40]:
         rep.violation(b, "%s | doc %s | want %s got %s" % (b["schema"].replace("\n", "\\n")[:200], b.get("doc"), b["want"], json.dumps(b["got"])[:200]))
     rep.violations = len(bad)
